@@ -43,10 +43,6 @@ theorem pairCheck_some (x : Bool) (ifid : Nat) (i e : LinkType) (c : Nat)
 /-- whether this router performs an effective segment change for the received packet -/
 def segChange (h : Hd) (pm : Hdr) (peering : Bool) : Bool := isXover (base h pm) && !peering
 
-structure Forwarded (cfg : Cfg) (mac : Mac) (resolve : Cfg → Hd → ResolveOut) (now : Nat)
-    (ing : Ingress) (h : Hd) (pm : Hdr) (raw : Bytes) (eg : Nat) : Prop where
-  disp : (process cfg mac resolve now ing h pm raw).1 = .forward eg
-
 /-- what forwarding on `eg` implies, in one place -/
 theorem forward_inv (cfg mac resolve now ing h pm raw eg)
     (hf : (process cfg mac resolve now ing h pm raw).1 = .forward eg) :
@@ -157,6 +153,30 @@ theorem egress_check_spec (cfg : Cfg) (h : Hd) (ing : Ingress) (s : St) :
         have hcode := pairCheck_some _ _ _ _ _ hp
         refine ⟨code, pairPtr h s, rfl, ?_⟩
         cases hx : s.effXover <;> simp [hx] at hcode <;> simp [hcode, pairPtr, hx]
+
+/-- … and at the level of `process`: when every check up to the cross-over passes and the
+interface pair (or the egress interface) is not admissible, the packet is answered with an SCMP
+ParameterProblem — UnknownHopField{Ingress,Egress}, InvalidPath or InvalidSegmentChange — and
+nothing else happens to it -/
+theorem bad_pair_answer (cfg mac resolve now ing h pm raw) (s0 s1 s5 : St)
+    (p : Passed cfg mac now ing h pm raw s0 s1) (hd : h.dstIA ≠ cfg.localIA)
+    (hx : stXover cfg mac h now s1 = .ok s5) (hbad : ∀ l, stEgressID cfg h ing s5 ≠ .ok l) :
+    ∃ code ptr, process cfg mac resolve now ing h pm raw = (.slow PP code ptr, s5.buf) ∧
+      (code = codeUnkEg s5.inf ∨ code = cInvalidPath ∨ code = cSegChange) := by
+  rw [process_of_passed p]
+  unfold tail
+  have hb : (h.dstIA == cfg.localIA) = false := by simpa using hd
+  simp only [hb, Bool.false_eq_true, if_false]
+  unfold outbound
+  simp only [hx]
+  rcases egress_check_spec cfg h ing s5 with ⟨l, hl, _⟩ | ⟨code, ptr, he, hc⟩
+  · exact absurd hl (hbad l)
+  · simp only [he]
+    refine ⟨code, ptr, rfl, ?_⟩
+    rcases hc with ⟨h1, _⟩ | ⟨h1, _⟩ | ⟨h1, _⟩
+    · exact Or.inl h1
+    · exact Or.inr (Or.inl h1)
+    · exact Or.inr (Or.inr h1)
 
 /-! ### non-vacuity -/
 
